@@ -548,6 +548,17 @@ pub fn compare(case: &Case, sent: &[Sent], stream: &[u8], out: &RunOut) -> Optio
 							format!("read on to the end of the stream ({} left)", out.leftover.len()),
 						)
 					}
+					// the body is longer than what its items need and the frame was delivered all the same
+					Obs::Msg { t, .. } if case.classes[fi] == "trailing" && *t == f.t => {
+						return mm(
+							"trailing_bytes_accepted",
+							fi,
+							format!(
+								"frame of type {} announcing {} body bytes, of which its items need {}, was returned as a message",
+								f.t, f.len, f.need
+							),
+						)
+					}
 					o => return mm("err_expected", fi, format!("got {}", o.brief())),
 				}
 				oi += 1;
